@@ -167,13 +167,30 @@ def _repairs(bb, run):
     type-check against the (changed) code are dropped like lost anchors; callees the code newly calls are
     extracted as contract-less stubs. Everything else stays an infrastructure error (=> undecided)."""
     drop, extra = set(), []
+    unfold = {}
     for it in getattr(run, "infra_items", []):
+        if "closures capturing a mutable reference" in it["msg"] and it.get("piece") is not None and it.get("code_off") is not None:
+            # changed code moved a mutating call into an Option/Result combinator closure: unfold the combinator (R21)
+            unfold.setdefault(it["piece"].fnpath, []).append(it["code_off"])
+            continue
         c = it.get("clause")
         if c is not None and getattr(c, "full_id", None):
             drop.add(c.full_id)
             continue
         msg = it["msg"]
         piece = it.get("piece")
+        if "type mismatch in closure arguments" in msg and piece is not None and it.get("code_off") is not None \
+                and getattr(piece, "fnspec", None) is not None and getattr(piece, "shape", None) is not None:
+            # a parameter-type annotation of ours now sits on a different closure (the code gained or lost one):
+            # drop the annotations of the closure the compiler points at
+            opens = [cl["open"] for cl in piece.shape.closures]
+            after = [i for i, o in enumerate(opens) if o >= it["code_off"]]
+            if after:
+                n = after[0] + 1
+                for c2 in piece.fnspec.clauses:
+                    if c2.kind in ("closure_ptype", "closure_sig") and c2.args.get("n") == n and getattr(c2, "full_id", None):
+                        drop.add(c2.full_id)
+                continue
         mt = re.search(r"no method named `(\w+)` found for (?:mutable )?(?:reference|struct) `&?(?:mut )?(\w+)", msg)
         if mt and piece is not None:
             extra.append({"kind": "methods", "impl": mt.group(2), "names": [mt.group(1)], "stub_only": True,
@@ -184,7 +201,7 @@ def _repairs(bb, run):
             extra.append({"kind": "fn", "name": mt.group(1), "stub_only": True,
                           "source": piece.srcspec if piece.srcspec.startswith("repo:") else None, "_auto": True})
     extra = [e for e in extra if e.get("source")]
-    return drop, extra
+    return drop, extra, unfold
 
 
 def run_part(unit_dir, tag, tier, want_neg, part):
@@ -194,10 +211,11 @@ def run_part(unit_dir, tag, tier, want_neg, part):
     t0 = time.time()
     out = os.path.join(BUILD, tag, name + ".rs")
     drop, extra = set(), []
+    unfold = {}          # fnpath -> [(offset in the rewritten text, variant)]   (R21, repair only)
     b = run = None
-    for attempt in range(4):
+    for attempt in range(6):
         try:
-            b = B.build_unit(unit_dir, out, bodies=bodies, drop_clauses=drop, extra_items=extra)
+            b = B.build_unit(unit_dir, out, bodies=bodies, drop_clauses=drop, extra_items=extra, unfold=unfold)
             if bodies is not None:
                 have = {p.fnpath for p in b.pieces if p.kind == "fn"}
                 for x in bodies - have:
@@ -211,10 +229,23 @@ def run_part(unit_dir, tag, tier, want_neg, part):
             return res
         run = V.run_verus(b.path)
         fails, infra = V.classify(b, run)
-        d2, e2 = _repairs(b, run)
+        d2, e2, u2 = _repairs(b, run)
+        if os.environ.get("VERIF_NO_REPAIR") or not infra:
+            break
+        if unfold and any("mismatched types" in x or "expected enum" in x for x in infra) and \
+                any(v == "Result" for sites in unfold.values() for _o, v in sites):
+            # the unfolded receiver was an Option, not a Result: retry with the other definition
+            unfold = {k: [(o, "Option") for o, _v in sites] for k, sites in unfold.items()}
+            continue
+        new_unfold = {k: v for k, v in u2.items() if k not in unfold}
         new_drop = d2 - drop
         new_extra = [e for e in e2 if e not in extra]
-        if not infra or (not new_drop and not new_extra) or os.environ.get("VERIF_NO_REPAIR"):
+        if new_unfold:
+            # clause drops of the same run are consequences of the rejected closure: unfold first, then look again
+            for k, offs in new_unfold.items():
+                unfold[k] = [(o, "Result") for o in sorted(set(offs))]
+            continue
+        if not new_drop and not new_extra:
             break
         drop |= new_drop
         extra += new_extra
@@ -227,6 +258,10 @@ def run_part(unit_dir, tag, tier, want_neg, part):
             res["undecided"].append("anchor lost for clause %s (%s)%s" % (cid, msg, "" if tags else " [untagged helper]"))
         for (cid, tags) in getattr(p, "dropped_clauses", []):
             res["undecided"].append("clause %s no longer type-checks against the extracted code and was dropped%s"
+                                    % (cid, "" if tags else " [untagged helper]"))
+    for p in b.pieces:
+        for (cid, tags) in getattr(p, "unfolded_clauses", []):
+            res["undecided"].append("closure annotated by clause %s was unfolded (R21: changed code captures a mutable reference in an Option/Result combinator closure)%s"
                                     % (cid, "" if tags else " [untagged helper]"))
     for e in extra:
         res["undecided"].append("callee %s is not part of this unit: extracted on the fly as a contract-less stub"
